@@ -17,6 +17,28 @@ CLAIMS: dict[str, dict] = {
                 "Set-level statement is checked by the spec predicate on every case; its Lean proof covers single policies (sets: see DESIGN).",
         "technique": "Lean 4 proof over a hand-written model + differential correspondence check",
     },
+    "C19": {
+        "text": "Lean theorems over a model of _set_by_path / apply_obligations / DecisionLogger.log, for every env (any nesting), path string, "
+                "spec list, leaf predicate, configuration and draw: (i) reading a path back after the write yields the placeholder exactly when "
+                "the final assignment is reached, and the no-op cases are characterised exactly (root not a dict, bracket content not an int() "
+                "literal, index before the start of the list); (ii) no leak: every secret-carrying leaf of the redacted env was already outside "
+                "the configured path; lifted to the whole spec list both at the state the path is applied in and - for paths of plain keys / "
+                "non-negative indices - judged on the input env alone (two-path induction: no write moves a leaf out from under such a path), "
+                "and writes never re-introduce a value; (iii) landed placeholders survive later disjoint writes; (iv) well-formed specs never "
+                "raise, so the unredacted fall-back is unreachable; (v) priority explicit > opt-in defaults > none; (vi) rate<=0 drops, rate>=1 "
+                "keeps every draw in [0,1), smart defaults always emit denies and permits with obligations; (vii) emitted in full iff the "
+                "serialised UTF-8 size is within the bound, else the marker. Tied to the code on every run by exhaustive small-scope + random "
+                "differential runs (message captured from the rbacx.audit logger in text and JSON mode, random.random injected) and by the Lean "
+                "spec predicates evaluated on the implementation's emitted record, plus harness-side checks (caller's env deep-compared, raw "
+                "secret search, log never raises).",
+        "design_ref": "DESIGN.md §5 C19",
+        "note": "All listed theorems are proved at full strength (no _partial). c19_caller_untouched is definitional in a pure model; its content is "
+                "the harness's before/after deep comparison. Trusted: Lean kernel; hand-written model validated differentially (not verified) "
+                "against the code; the jsonSize oracle (json.dumps + UTF-8 length computed by the harness); Python int() modelled on ASCII index "
+                "strings only; envs are trees without shared sub-objects; placeholders are scalars; malformed spec lists (non-mapping spec, "
+                "non-iterable fields) are outside the property's domain - the code then emits the unredacted env (notes/C19.md O1).",
+        "technique": "Lean 4 proof over a hand-written model + differential correspondence check",
+    },
 }
 
 ALL = [f"C{i:02d}" for i in range(1, 21)]
